@@ -1133,13 +1133,10 @@ func runC16(r *Runner) string {
 	r.strmBatch(cmds, "fault kinds x positions, single-block ranges, cancel points (default order)", 1)
 
 	// 2. exhaustive: every release order x fault plan (<= 2 faults) x cancel point
-	maxN := 2
-	if r.thorough {
-		maxN = 3
-	}
+	// quick: everything for n <= 2; for n = 3 the plans with at most one fault and no cancel
 	cmds = nil
 	for _, mode := range []string{"o", "u", "x"} {
-		for n := 1; n <= maxN; n++ {
+		for n := 1; n <= 3; n++ {
 			for p := 1; p <= 2; p++ {
 				ids := reqIDs(n)
 				plans := []string{"-"}
@@ -1155,8 +1152,8 @@ func runC16(r *Runner) string {
 				}
 				for pi, plan := range plans {
 					for _, c := range cancels(mode, n) {
-						if c != "-" && strings.Contains(plan, ",") && !r.thorough {
-							continue // quick tier: cancel points with at most one fault
+						if n == 3 && !r.thorough && (c != "-" || strings.Contains(plan, ",")) {
+							continue
 						}
 						lazy := mode != "x" && (pi%3 == 1)
 						cmds = append(cmds, "dfs "+spec(mode, uint32(10+n), n, p, lazy, plan, c)+" 5000")
@@ -1169,7 +1166,7 @@ func runC16(r *Runner) string {
 
 	// 3. seeded random schedules of larger configurations
 	cmds = nil
-	total := r.N(300, 30000)
+	total := r.N(1200, 30000)
 	per := 5
 	for i := 0; i < total/per; i++ {
 		mode := []string{"o", "u", "x"}[r.rng.Intn(3)]
@@ -1207,7 +1204,7 @@ func runC16(r *Runner) string {
 	return "every case is one run of the real blockscan code (StreamBlocks / StreamBlocksUnordered / UpdateUtxos) against a parking " +
 		"http.RoundTripper in a child process: (mode, from, n, p, consumer laziness, chain seed, fault plan of at most two faults keyed by " +
 		"request position, cancellation point, release-order choices). Exhaustive part: depth-first enumeration of every release order for " +
-		"n<=2 (quick) / n<=3 (thorough), p<=2, every plan of <=2 faults (one error kind per position, rotated over transport error / RPC error / " +
+		"n<=3, p<=2 (quick tier: for n=3 only the plans with <=1 fault and no cancel), every plan of <=2 faults (one error kind per position, rotated over transport error / RPC error / " +
 		"401 / null body / non-string / non-hex / truncated block, plus non-linking block) and cancellation at every delivery point; a separate sweep " +
 		"puts every concrete fault kind at every position. Random part: n<=8, p<=4, half of it with GOMAXPROCS=4. A case is distinct when its spec " +
 		"and observed event trace differ; every trace is checked by the Go-side oracles (order, exactly-once, completeness, fault => error, " +
